@@ -416,7 +416,7 @@ Lemma shortcut_unfold h idx mask :
        shr64 mask (uint_of_i32 (fixed_of h idx)))
     else (0, idx, mask)
   else (0, idx, mask).
-Proof. reflexivity. Qed.
+Proof. unfold shortcut, fixed_of, diffbits_of. cbv zeta. reflexivity. Qed.
 
 (** index < height: index - height is negative, the xor has bit 31, nothing is fixed *)
 Lemma fixed_of_small h idx : 0 <= h <= 30 -> 0 <= idx < h -> (0 <? fixed_of h idx) = false.
@@ -493,7 +493,7 @@ Proof.
   intros Hi. exists h, [], idx. repeat split; try lia.
   - cbn [length]. lia.
   - unfold p2At. rewrite val_msb_nil, Nat.sub_diag. change (2 ^ Z.of_nat 0) with 1.
-    do 2 f_equal. lia.
+    do 2 f_equal; lia.
 Qed.
 
 Lemma shortcut_spec h idx : (h <= 30)%nat -> 0 <= idx < 2 ^ (Z.of_nat h + 1) - 1 ->
@@ -538,7 +538,9 @@ Proof.
   { unfold ml. assert (2 ^ d <= 2 ^ (Z.of_nat h + 1)) by (apply pow2_le; lia). lia. }
   rewrite m_eq by lia. fold ml. cbn zeta.
   rewrite i32_word_lo, i32_not_word_lo, p2_fixed_eq by lia.
-  unfold ml at 1 3. rewrite land_pow2_diff, land_compl_pow2_diff by lia. fold A low.
+  assert (EL1 : Z.land idx ml = A * 2 ^ d) by (unfold ml; apply land_pow2_diff; lia).
+  assert (EL2 : Z.land idx (-1 - ml) = low) by (unfold ml; apply land_compl_pow2_diff; lia).
+  rewrite !EL1, EL2.
   assert (HAD : 0 <= A * 2 ^ d <= idx) by nia.
   rewrite (u32_id (A * 2 ^ d)) by lia.
   replace (popcount (A * 2 ^ d)) with (count_true q0).
@@ -637,7 +639,7 @@ Proof.
   induction h as [|k IH]; [reflexivity|].
   cbn [all_nodes length]. rewrite app_length, !map_length.
   replace (Z.of_nat (S k) + 1) with ((Z.of_nat k + 1) + 1) by lia.
-  rewrite (pow2_succ (Z.of_nat k + 1)) by lia. lia.
+  rewrite (pow2_succ (Z.of_nat k + 1)) by lia. unfold node in *. lia.
 Qed.
 
 Lemma all_nodes_le h : forall r, In r (all_nodes h) -> (length r <= h)%nat.
@@ -660,14 +662,17 @@ Proof.
     replace (Z.of_nat k + 1) with (Z.of_nat (S k)) in * by lia.
     replace (Z.to_nat idx) with (S (Z.to_nat (idx - 1))) by lia.
     cbn [all_nodes nth].
+    assert (Hlen : forall b, length (map (cons b) (all_nodes k)) = Z.to_nat (2 ^ Z.of_nat (S k) - 1)).
+    { intros b. rewrite map_length. unfold node in *. lia. }
     destruct (Z.leb_spec (2 ^ Z.of_nat (S k)) idx).
-    + rewrite app_nth2 by (rewrite map_length; lia). rewrite map_length.
-      replace (Z.to_nat (idx - 1) - length (all_nodes k))%nat with (Z.to_nat (idx - 2 ^ Z.of_nat (S k))) by lia.
-      rewrite (nth_indep _ [] (true :: [])) by (rewrite map_length; lia).
-      rewrite map_nth. f_equal. apply IH. replace (Z.of_nat k + 1) with (Z.of_nat (S k)) by lia. exact R.
-    + rewrite app_nth1 by (rewrite map_length; lia).
-      rewrite (nth_indep _ [] (false :: [])) by (rewrite map_length; lia).
-      rewrite map_nth. f_equal. apply IH. replace (Z.of_nat k + 1) with (Z.of_nat (S k)) by lia. exact R.
+    + rewrite app_nth2 by (rewrite Hlen; lia). rewrite Hlen.
+      replace (Z.to_nat (idx - 1) - Z.to_nat (2 ^ Z.of_nat (S k) - 1))%nat
+        with (Z.to_nat (idx - 2 ^ Z.of_nat (S k))) by lia.
+      rewrite (nth_indep _ [] (true :: [])) by (rewrite Hlen; lia).
+      rewrite map_nth. f_equal. apply IH. exact R.
+    + rewrite app_nth1 by (rewrite Hlen; lia).
+      rewrite (nth_indep _ [] (false :: [])) by (rewrite Hlen; lia).
+      rewrite map_nth. f_equal. apply IH. exact R.
 Qed.
 
 Lemma filter_all {A} (f : A -> bool) l : (forall x, In x l -> f x = true) -> filter f l = l.
@@ -694,8 +699,7 @@ Proof.
   unfold stored_nodes. apply filter_all. intros r Hr. apply all_nodes_le in Hr.
   unfold stored, fullT. replace (2 ^ (Z.of_nat h + 1) - 1) with (2 ^ (Z.of_nat h + 1) - 2 ^ 0) by reflexivity.
   rewrite testbit_pow2_diff by lia.
-  destruct (Z.leb_spec 0 (Z.of_nat (length r))), (Z.ltb_spec (Z.of_nat (length r)) (Z.of_nat h + 1)); try lia.
-  reflexivity.
+  destruct (Z.leb_spec 0 (Z.of_nat (length r))), (Z.ltb_spec (Z.of_nat (length r)) (Z.of_nat h + 1)); try lia; reflexivity.
 Qed.
 
 Lemma count_before : forall h q, (length q <= h)%nat ->
@@ -713,10 +717,10 @@ Proof.
       destruct b.
       * rewrite (filter_all (fun x => pre_ltb (false :: x) (true :: q))) by (intros; reflexivity).
         rewrite (filter_ext (fun x => pre_ltb (true :: x) (true :: q)) (fun r => pre_ltb r q)) by (intros; reflexivity).
-        specialize (IH q ltac:(lia)). lia.
+        specialize (IH q ltac:(lia)). unfold node in *. lia.
       * rewrite (filter_none (fun x => pre_ltb (true :: x) (false :: q))) by (intros; reflexivity).
         rewrite (filter_ext (fun x => pre_ltb (false :: x) (false :: q)) (fun r => pre_ltb r q)) by (intros; reflexivity).
-        specialize (IH q ltac:(lia)). cbn [length]. lia.
+        specialize (IH q ltac:(lia)). cbn [length]. unfold node in *. lia.
 Qed.
 
 Lemma enum_rank_full_rank h q : (length q <= h)%nat -> enum_rank h q = full_rank h q.
@@ -738,9 +742,9 @@ Proof.
   rewrite bits_val_msb. apply rev_involutive.
 Qed.
 
-Lemma c05_rank_eq h q : (length q <= h)%nat ->
-  (if (h <=? enum_max)%nat then enum_rank h q else full_rank h q) = full_rank h q.
-Proof. intros Hl. destruct (h <=? enum_max)%nat; [now apply enum_rank_full_rank|reflexivity]. Qed.
+Lemma c05_rank_eq h q idx : (length q <= h)%nat ->
+  (if (h <=? enum_max)%nat then enum_rank h q =? idx else full_rank h q =? idx) = (full_rank h q =? idx).
+Proof. intros Hl. destruct (h <=? enum_max)%nat; [now rewrite enum_rank_full_rank|reflexivity]. Qed.
 
 Lemma check_exact h idx w : (h <= 30)%nat -> 0 <= idx < 2 ^ (Z.of_nat h + 1) - 1 ->
   check_index_to_path h idx w = true <-> w = enc h (node_at h idx).
@@ -752,7 +756,7 @@ Proof.
     rewrite <- He at 1. f_equal. rewrite <- H2. symmetry. now apply node_at_full_rank.
   - intros ->. pose proof (node_at_length h idx) as Hl.
     rewrite dec_enc by (try lia; exact Hl). rewrite c05_rank_eq by exact Hl.
-    rewrite full_rank_node_at by exact Hi. rewrite Z.eqb_refl.
+    rewrite full_rank_node_at by exact Hi. rewrite !Z.eqb_refl.
     apply Nat.leb_le in Hl. rewrite Hl. reflexivity.
 Qed.
 
